@@ -9,6 +9,8 @@ import (
 	"encoding/json"
 	"fmt"
 	"os"
+	"runtime"
+	"strings"
 	"sync"
 	"time"
 )
@@ -301,3 +303,18 @@ func FaultDisarm() {
 }
 
 var nativeFault func()
+
+// LiveThreads returns the number of interpreter threads, other than the caller,
+// that are still alive (blocked for ever counts as alive) and whose top-level
+// function name contains substr.  Natively it inspects the goroutine dump.
+func LiveThreads(substr string) int {
+	buf := make([]byte, 1<<22)
+	n := runtime.Stack(buf, true)
+	count := 0
+	for _, g := range strings.Split(string(buf[:n]), "\n\n")[1:] {
+		if strings.Contains(g, substr) && !strings.Contains(g, "testing.") {
+			count++
+		}
+	}
+	return count
+}
